@@ -229,6 +229,9 @@ COMPOSE = [
     "( case x in a) A ;; esac ); B", "( case x in a) A ;; esac ) ; B ; ( case x in b) C ;; esac )", "echo $(case x in a) A ;; esac); B", "{ case x in a) A ;; esac; }; B", "( if A; then B; fi ); C",
     "( while A; do B; done ); C", "( for i in 1; do A; done ) ; B", "f() ( case x in a) A ;; esac ); B", "( A; case x in a) B ;; esac ) | C", "( case x in a) A ;;& b) B ;& c) C ;; esac ); D", "( ( case x in a) A ;; esac ) ); B",
     "cat <(case x in a) A ;; esac); B", "( case x in (a) A ;; (esac) B ;; esac ); C", "( case x in a) A ;; esac; B ); C", "( case x in a) A ;; esac ) && B || ( case y in b) C ;; esac )",
+    # a leading `cd` with more than a directory on it: its redirections and the expansions in its target are parts too
+    "cd /tmp > /tmp/no && A", "cd /tmp > /tmp/q; A", "cd /tmp 2> /tmp/no; A", "{ cd /tmp > /tmp/no; }", "{ cd /tmp > /tmp/q; A; }", "( cd /tmp > /tmp/no && A )", "if cd /tmp > /tmp/no; then A; fi", "A; cd /tmp > /tmp/no",
+    "cd /tmp/$((1+$(B))); A", "cd /tmp/$[1+$(B)] && A", "cd /tmp <<EOF\n$(B)\nEOF\nA", "cd /tmp < <(B); A", "cd /tmp; A > /tmp/q", "cd /tmp && A; B", "while cd /tmp > /tmp/q; do A; done", "f() { cd /tmp > /tmp/no; A; }",
     "ok1 $(A) > /tmp/ok", "ok1 $(A) > /tmp/q", "ok1 $(A) > /tmp/no", "ok1 > /tmp/ok $(A)", "ok1 $(A) $(B) > /tmp/q 2> /tmp/ok", "X=$(A) ok1", "X=$(A) Y=$(B) ok1 > /tmp/q", "X=$(A)", "ok1 <(A) > /tmp/no",
 ]
 PART_CMDS = {"allow": "ok1 a", "ask": "askme x", "deny": "denied y"}
